@@ -182,6 +182,7 @@ func drawPlan(c *core.Ctx, l adnlsrv.Layout, pauses bool) adnlsrv.Plan {
 				n = adnlsrv.FrameOverhead + l[k]
 			}
 		}
+		off = dupOffset(l, off)
 		if n > off {
 			n = off
 		}
@@ -194,6 +195,19 @@ func drawPlan(c *core.Ctx, l adnlsrv.Layout, pauses bool) adnlsrv.Plan {
 		p.Fault.Off = total
 	}
 	return p
+}
+
+// dupOffset keeps the position of a resend away from the last bytes of a frame. Bytes inserted r bytes before
+// the end of a frame leave that frame intact when the r bytes that now end it happen to equal the r bytes they
+// displaced (once in 256 for r = 1), and the harness cannot see the cipher text in advance: positions with
+// 0 < r < 8 are moved to the end of the frame, where the resend hits the next frame for certain.
+func dupOffset(l adnlsrv.Layout, off int) int {
+	if k, _, _ := l.Locate(off); k < len(l) {
+		if end := l.Start(k + 1); off != l.Start(k) && end-off < 8 {
+			return end
+		}
+	}
+	return off
 }
 
 func splitsInsideFrames(l adnlsrv.Layout, cuts []adnlsrv.Cut) int {
@@ -245,6 +259,13 @@ type connScript struct {
 	// connectMs > 0: NewConnection gets a context that expires after so many milliseconds, and the client
 	// starts sending only after that moment (a connect timeout must not outlive the connect).
 	connectMs int
+	// cancelAfterConnect: the context given to NewConnection is cancelled as soon as NewConnection has returned
+	// (the usual "ctx, cancel := ...; defer cancel()" around a connect), before any traffic of the client.
+	cancelAfterConnect bool
+	// With connectMs > 0 or cancelAfterConnect the server writes its frames from #holdFrom+1 on (holdFrom = 0:
+	// everything but the confirmation) only after the connect context has ended; the end of the context that
+	// was used to make the connection says nothing about packets the server sends later.
+	holdFrom int
 	// senders > 1: the client packets are handed to Send by that many goroutines at once (packet i by
 	// goroutine i mod senders); the server must receive every packet intact, in any order.
 	senders int
@@ -309,7 +330,10 @@ func (s *connScript) String() string {
 		sb.WriteString("; client payloads are consecutive pieces of one buffer")
 	}
 	if s.connectMs > 0 {
-		fmt.Fprintf(&sb, "; connect context expires after %d ms, client traffic starts after that", s.connectMs)
+		fmt.Fprintf(&sb, "; connect context expires after %d ms, client traffic and the server frames from #%d on start after that", s.connectMs, s.holdFrom+1)
+	}
+	if s.cancelAfterConnect {
+		fmt.Fprintf(&sb, "; connect context cancelled right after NewConnection returned, client traffic and the server frames from #%d on start after that", s.holdFrom+1)
 	}
 	if s.consumerDelay > 0 {
 		fmt.Fprintf(&sb, "; Responses() is read from %v after the connect on", s.consumerDelay)
@@ -413,6 +437,13 @@ func drawConnScript(c *core.Ctx, big, burst bool, pool *packetPool) *connScript 
 	if s.plan.Fault.Kind == adnlsrv.FaultNone && len(s.client) > 0 && rare(c, "connect.deadline", 5) {
 		s.connectMs = c.Range("connect.ms", 250, 700)
 		c.Class("connection used after the deadline of its connect context")
+	} else if s.plan.Fault.Kind == adnlsrv.FaultNone && len(s.client) > 0 && rare(c, "connect.cancel", 5) {
+		s.cancelAfterConnect = true
+		c.Class("connection used after its connect context was cancelled")
+	}
+	if (s.connectMs > 0 || s.cancelAfterConnect) && len(s.server) > 0 {
+		s.holdFrom = c.Choose("connect.hold", len(s.server))
+		c.Class("server frames written after the end of the connect context")
 	}
 	return s
 }
@@ -427,14 +458,67 @@ type serverSide struct {
 	writerDone chan struct{}
 	connUp     chan *adnlsrv.Conn
 	release    chan struct{}
+	resume     chan struct{} // closed when the held-back frames may be written (holdFrom)
 	wrote      atomic.Bool
 	readEnded  atomic.Bool
+	confirmed  atomic.Bool // the confirmation frame of the scripted connection has been handed to the kernel
+	connecting atomic.Bool // NewConnection has not returned yet
 }
 
 func (ss *serverSide) receivedCount() int {
 	ss.mu.Lock()
 	defer ss.mu.Unlock()
 	return len(ss.received)
+}
+
+// connectHangLimit bounds the wait for NewConnection. The context handed to NewConnection expires after
+// waitLimit at the latest, so only a call that ignores its context can get here.
+const connectHangLimit = 3 * waitLimit
+
+var redialsCompleted atomic.Int64 // connections made over a second dial after a damaged first confirmation
+
+// redialOutcome looks at the server's log of the connections after the first one: how many of them the
+// server brought up by the book (handshake accepted, confirmation written), and how many are still undecided.
+func redialOutcome(srv *adnlsrv.Server) (confirmed, pending int) {
+	state := map[int]int{} // 1 = accepted and being served, 2 = confirmed, 3 = ended without a confirmation
+	for _, e := range srv.Events() {
+		if e.Dial < 2 {
+			continue
+		}
+		switch {
+		case strings.HasPrefix(e.What, "accepted, plan serve"):
+			if state[e.Dial] == 0 {
+				state[e.Dial] = 1
+			}
+		case e.What == "established":
+			state[e.Dial] = 2
+		case strings.HasPrefix(e.What, "handshake read"), strings.HasPrefix(e.What, "handshake refused"), strings.HasPrefix(e.What, "confirmation:"):
+			if state[e.Dial] != 2 {
+				state[e.Dial] = 3
+			}
+		}
+	}
+	for _, st := range state {
+		switch st {
+		case 1:
+			pending++
+		case 2:
+			confirmed++
+		}
+	}
+	return
+}
+
+// awaitRedials gives the server up to two seconds to finish what it is doing with further connections of the
+// client and returns how many it confirmed. Too short a wait can only lose a statement, never create one.
+func awaitRedials(srv *adnlsrv.Server) int {
+	for end := time.Now().Add(2 * time.Second); ; {
+		confirmed, pending := redialOutcome(srv)
+		if confirmed > 0 || pending == 0 || time.Now().After(end) {
+			return confirmed
+		}
+		time.Sleep(500 * time.Microsecond)
+	}
 }
 
 // afterIf is time.After(d) when on, and a channel that never fires otherwise.
@@ -455,19 +539,31 @@ func runConn(s *connScript) (err error) {
 			affected, faulty = i+1, true
 		}
 	}
-	ss := &serverSide{writerDone: make(chan struct{}), connUp: make(chan *adnlsrv.Conn, 1), release: make(chan struct{})}
-	var releaseOnce sync.Once
+	ss := &serverSide{writerDone: make(chan struct{}), connUp: make(chan *adnlsrv.Conn, 1), release: make(chan struct{}), resume: make(chan struct{})}
+	var releaseOnce, resumeOnce sync.Once
 	release := func() { releaseOnce.Do(func() { close(ss.release) }) }
+	resume := func() { resumeOnce.Do(func() { close(ss.resume) }) }
 	defer release()
+	firstBroken := faulty && affected == 0 // the confirmation of the scripted connection does not arrive intact
+	held := s.connectMs > 0 || s.cancelAfterConnect
 
 	srv, lerr := adnlsrv.Listen(priv, adnlsrv.Hooks{
 		Dial: func(n int) adnlsrv.DialPlan {
 			if n == 1 {
 				return adnlsrv.DialPlan{Kind: adnlsrv.DialServeNoConfirm}
 			}
+			if firstBroken && ss.connecting.Load() {
+				// The client dials again from inside NewConnection after the broken first attempt: this
+				// connection is undamaged and served by the book (handshake checked, confirmation sent).
+				return adnlsrv.DialPlan{Kind: adnlsrv.DialServe}
+			}
 			return adnlsrv.DialPlan{Kind: adnlsrv.DialTarpit} // a redial of the client after the scripted connection
 		},
 		Serve: func(cn *adnlsrv.Conn) {
+			if cn.Dial != 1 {
+				cn.Loop(nil) // until the client or the end of the case closes it; pings are answered
+				return
+			}
 			cn.SetPlan(s.plan, nil)
 			cn.SetAutoPong(false)
 			ss.connUp <- cn
@@ -495,7 +591,15 @@ func runConn(s *connScript) (err error) {
 				ss.readEnded.Store(true)
 			}()
 			werr := cn.WriteFrameNonce(nil, [32]byte{0xc0})
+			ss.confirmed.Store(werr == nil)
 			for i := 0; werr == nil && i < len(s.server); i++ {
+				if held && i == s.holdFrom {
+					select { // the rest of the stream follows after the connect context has ended
+					case <-ss.resume:
+					case <-ss.release:
+					case <-time.After(3 * waitLimit):
+					}
+				}
 				werr = cn.WriteFrame(s.server[i].payload)
 			}
 			if werr == nil {
@@ -506,7 +610,7 @@ func runConn(s *connScript) (err error) {
 			ss.mu.Unlock()
 			ss.wrote.Store(true)
 			close(ss.writerDone)
-			if faulty && affected == 0 {
+			if firstBroken {
 				return // the client cannot have accepted the confirmation: end the connection
 			}
 			<-ss.release
@@ -539,24 +643,87 @@ func runConn(s *connScript) (err error) {
 	}
 	ctx, cancel := context.WithTimeout(context.Background(), connectLimit)
 	defer cancel()
-	conn, cerr := liteclient.NewConnection(ctx, []byte(srv.PublicKey()), srv.Addr())
+	// NewConnection runs in a goroutine of its own: the wait for it is bounded whatever the client does (a
+	// client that dials more often than scripted may end up waiting for a connection nobody serves).
+	type connectResult struct {
+		conn *liteclient.Connection
+		err  error
+		bad  error // a panic inside NewConnection
+	}
+	connectCh := make(chan connectResult, 1)
+	ss.connecting.Store(true)
+	go func() {
+		var r connectResult
+		r.bad = core.Protect(func() error {
+			r.conn, r.err = liteclient.NewConnection(ctx, []byte(srv.PublicKey()), srv.Addr())
+			return nil
+		})
+		connectCh <- r
+	}()
+	var conn *liteclient.Connection
+	var cerr error
+	select {
+	case r := <-connectCh:
+		ss.connecting.Store(false)
+		if r.bad != nil {
+			return report("NewConnection: %v", r.bad)
+		}
+		conn, cerr = r.conn, r.err
+	case <-time.After(connectHangLimit):
+		ss.connecting.Store(false)
+		if hs := srv.HandshakeErrors(); len(hs) > 0 {
+			return report("the reference server refused the client's handshake: %v", hs[0])
+		}
+		// The deferred srv.Close() ends every connection of the server, which also ends the call.
+		confirmedRedials, _ := redialOutcome(srv)
+		switch {
+		case !firstBroken && srv.Dials() == 1 && ss.confirmed.Load():
+			return report("NewConnection did not return within %v although the reference server accepted the handshake and sent the confirmation intact on the only connection the client made", connectHangLimit)
+		case firstBroken && confirmedRedials > 0:
+			return report("NewConnection did not return within %v: after a first attempt whose confirmation was damaged in transit the client dialled again, and the reference server accepted that handshake and sent the confirmation over the undamaged connection", connectHangLimit)
+		}
+		inconclusive.Add(1) // the client waits on a connection that the script does not serve: no statement
+		return nil
+	}
 	if s.connectMs > 0 {
 		if cerr != nil && ctx.Err() != nil {
 			inconclusive.Add(1) // the machine was too slow for the short connect timeout: no statement
 			return nil
 		}
 		if cerr == nil {
-			<-ctx.Done()
+			select {
+			case <-ctx.Done():
+			case <-time.After(waitLimit): // cannot happen: the context expires after connectMs
+			}
 			time.Sleep(40 * time.Millisecond)
 		}
 	}
+	if s.cancelAfterConnect && cerr == nil {
+		cancel()
+		time.Sleep(20 * time.Millisecond) // let whatever watches the context act before the traffic starts
+	}
+	resume()
 	if hs := srv.HandshakeErrors(); len(hs) > 0 {
 		return report("the reference server refused the client's handshake: %v", hs[0])
 	}
-	if faulty && affected == 0 {
+	if firstBroken {
+		// The confirmation of the first attempt was damaged in transit: that attempt must not yield a
+		// connection. Whether the client then gives up or dials again is its own business; but a second
+		// attempt is a client connecting to a conforming server over an undamaged link, and has to complete.
+		confirmedRedials := 0
+		if srv.Dials() > 1 {
+			confirmedRedials = awaitRedials(srv)
+		}
 		if cerr == nil {
 			clientMade = true
+			if confirmedRedials > 0 {
+				redialsCompleted.Add(1)
+				return nil // connected over the second attempt; the script was written for the first one
+			}
 			return report("NewConnection succeeded although the confirmation frame was altered in transit")
+		}
+		if confirmedRedials > 0 {
+			return report("NewConnection failed (%v) although, after the first attempt whose confirmation was damaged in transit, the client dialled again and the reference server completed that handshake over an undamaged connection (handshake accepted, confirmation sent intact)", cerr)
 		}
 		return nil
 	}
@@ -1141,5 +1308,5 @@ func TestEnum(t *testing.T) {
 }
 
 func TestReplay(t *testing.T) {
-	core.Replay(t, parseCheck, connCheck, gridCheck, limitCheck, burstCheck)
+	core.Replay(t, parseCheck, connCheck, gridCheck, limitCheck, burstCheck, confirmCheck)
 }
